@@ -3,9 +3,12 @@
 Engine E2 (bounded-exhaustive enumeration), sharing the data-shape enumeration of C07 (mc/props/c07_shapes.py).
 
 Enumerated cases (each: build the chart on the real library, then run the oracle on the FINAL state):
-  A  every writable chart type x C07's creation inputs (leaf counts {1,2,3,300} x label kinds; every
-     category forest within the bound; series counts {0,1,2,3,26,27} | 0..50 x value kinds; number formats;
-     XY/bubble length patterns);
+  A  every writable chart type x C07's creation inputs (leaf counts {1,2,3,300} x label kinds, among them
+     int_wide / float_wide: numeric labels needing 7..17 significant digits such as 20240131, 1000001,
+     1234.5678, 0.12345678, 0.1+0.2; every category forest within the bound; series counts {0,1,2,3,26,27} |
+     0..50 x value kinds; number formats; RAGGED category data — per-series point counts {0..5}^ns over 3
+     categories and {0,2,4,6}^ns | {0..6}^ns over 4 two-level leaves, so c:val ranges shorter, longer and
+     empty next to a c:cat range of fixed size; XY/bubble length patterns);
   B  column-letter boundaries: category depth 1..4 (ragged chain forests) x series counts {25,26,27} on every
      category chart type; thorough adds {701,702,703} on one type per writer family (columns ZZ/AAA);
   C  `CategoryWorkbookWriter._column_reference` for ALL 16384 columns against an independent block-wise
@@ -19,6 +22,8 @@ Enumerated cases (each: build the chart on the real library, then run the oracle
      type, and every shape (thorough: pairs) applied to each corpus chart of the three chart decks; for
      these the deck is also SAVED and the workbook is taken from the saved package through an independent
      OPC reader (chart part -> package relationship -> embedded part) and must be the replaced blob;
+  L  replace_data on a one-series chart of every category chart type with every ragged shape and with
+     int_wide / float_wide labels x {1,7} categories (c07_shapes.replace_extra_shapes: 66 | 318 shapes);
   R  ONE chart-data object used twice with growth in between (c07_shapes.reuse_pairs / apply_delta, documented
      chart-data API only): add_chart(cd); then add_category (flat; a new multi-level top category) |
      add_sub_category | add_series | add_data_point on a short series; XY/bubble: EVERY series position
@@ -65,11 +70,14 @@ from mc.props import c07_shapes as S
 LEVEL = "exploration"
 RULE = ("one evaluation = one chart state (after add_chart or after the last replace_data of the case) whose every "
         "series formula reference is resolved in the embedded workbook and compared with its cache; cases are the "
-        "families A-H and R of the module docstring, each a full product within the stated bound. Non-trivial = the "
+        "families A-H, L and R of the module docstring, each a full product within the stated bound. Non-trivial = the "
         "evaluation compared at least one cached point with a workbook cell; counted per distinct case.")
 ASSUMPTIONS = [
     "bounded as C07 (c07_shapes.creation_shapes / history_shapes) plus series counts 25-27 (quick) and 701-703 "
     "(thorough) x category depth 1-4, XY/bubble lengths {0,1,2,5}^3, a 10-text alphabet, 16384 column numbers",
+    "numeric category labels: small ints, short floats and 12 numbers of 7..17 significant digits (no exponent forms); "
+    "category series lengths {0..5} against 3 categories and {0,2,4,6} (thorough 0..6) against 4 two-level leaves, "
+    "through add_chart and through one replace_data",
     "trusted base: zipfile + lxml reading SpreadsheetML (mc/oracles/xlsx_ref.py), hand-written A1 parser",
     "numbers are compared with relative tolerance 1e-14; a blank or absent cell equals the empty string",
     "an inverted range written for an empty series is read as a range of size 0",
@@ -556,6 +564,14 @@ def build_cases(thorough, types, corpus):
             for q in itertools.product(range(6), repeat=ln):
                 add("G", {"src": "corpus", "deck": deck, "slide": si, "shape": hi, "ops": [H[i] for i in q], "saved": True})
             expected_g += 6 ** ln
+    # L
+    xtra, xtra_size = S.replace_extra_shapes("cat", thorough)
+    if len(xtra) != xtra_size or not xtra:
+        raise HarnessError("replace-extra generator produced %d shapes, closed form %d" % (len(xtra), xtra_size))
+    for t in cat_types:
+        for sp in xtra:
+            add("L", {"src": "gen", "type": t, "ops": [S.REPLACE_BASE, sp]})
+    expected_l = len(cat_types) * xtra_size
     # H
     for t in cat_fam_types:
         # dates representable in the 1904 system (2016-12-27 onwards, midnight)
@@ -570,7 +586,7 @@ def build_cases(thorough, types, corpus):
                 add("R", {"src": "reuse", "type": t, "mut": mut, "before": before, "after": after, "second": second})
     expected_r = 2 * (len(S.reuse_pairs("cat")) * len(cat_fam_types)
                       + len(S.reuse_pairs("xy")) * (len(fam_types) - len(cat_fam_types)))
-    expected = {"R": expected_r, "A": expected_a, "B": expected_b, "D": expected_d, "E": expected_e, "F": expected_f, "G": expected_g, "H": expected_h}
+    expected = {"R": expected_r, "L": expected_l, "A": expected_a, "B": expected_b, "D": expected_d, "E": expected_e, "F": expected_f, "G": expected_g, "H": expected_h}
     if sizes != expected:
         raise HarnessError("case generator sizes %r != closed forms %r" % (sizes, expected))
     return cases, expected
